@@ -202,6 +202,8 @@ class Ceremony:
         cos = ch.index('cos', self.n) if (self.wt == 'legacy' and not self.single) else None
         if cos is not None and self.focus == 'C10' and ch.coin('via_get_key', 0.4):
             return self.agree_via_get_key(change, cos)
+        if self.focus == 'C10' and not self.single and ch.coin('via_get_keys', 0.3):
+            return self.agree_via_get_keys(change, cos)
         w.op('agree', change=change, index=index, cosigner=cos)
         e = self.ref_key(change, index, cos or 0)
         got = []
@@ -250,6 +252,41 @@ class Ceremony:
                             'party %d get_key(cosigner_id=%d, change=%d) -> %s %s; the account keys give %s' %
                             (p, cos, change, k.path, k.address, e['address']))
         w.probe('agree_via_get_key')
+
+    def agree_via_get_keys(self, change, cos):
+        """Every party is asked for several keys in one call (get_keys, for BIP45 wallets of cosigner branch `cos`): each
+        returned key must lie in the branch that was asked for and carry the address the n account keys give for its
+        path, whatever was derived in that wallet object before."""
+        ch, w = self.ch, self.w
+        n_keys = ch.int('bulk_n', 2, 4)
+        w.op('agree_get_keys', change=change, cosigner=cos, n=n_keys)
+        # BIP45: two cosigner branches one after the other in the same wallet objects
+        branches = [None] if cos is None else [cos, (cos + 1) % self.n]
+        for cos, (p, party) in [(c, pp) for c in branches for pp in enumerate(self.parties)]:
+            kw = {'number_of_keys': n_keys, 'change': change}
+            if cos is not None:
+                kw['cosigner_id'] = cos
+            ok, ks = self.call('get_keys', lambda: party['w'].get_keys(**kw))
+            if not ok:
+                continue
+            for k in ks:
+                parts = k.path.split('/')
+                try:
+                    chg, index = int(parts[-2]), int(parts[-1])
+                    branch = int(parts[-3]) if cos is not None else 0
+                except (ValueError, IndexError):
+                    w.violation('wrong_branch', {'witness': self.wt, 'api': 'get_keys'}, 'party %d: path %s' % (p, k.path))
+                    continue
+                if chg != change or (cos is not None and branch != cos):
+                    w.violation('wrong_branch', {'witness': self.wt, 'api': 'get_keys'},
+                                'party %d asked for cosigner branch %s change %d, got %s' % (p, cos, change, k.path))
+                    continue
+                e = self.ref_key(chg, index, branch)
+                if k.address != e['address']:
+                    w.violation('address_differs_from_reference', {'witness': self.wt, 'sort_keys': self.sort_keys},
+                                'party %d get_keys(%s) -> %s %s; the account keys give %s' %
+                                (p, kw, k.path, k.address, e['address']))
+        w.probe('agree_via_get_keys')
 
     def op_reopen(self):
         """A cosigner closes and reopens its wallet (a new Wallet object on the same database)."""
@@ -723,16 +760,22 @@ class Ceremony:
             t.locktime = (t.locktime or 0) + 1
             return True
         if kind == 'version':
-            t.version_int = 2 if t.version_int == 1 else 1
-            t.version = t.version_int.to_bytes(4, 'big')
+            # the serialized field is `version` (bytes); `version_int` is its derived copy - an edit may reach both or
+            # only the field that is serialized
+            nv = ch.pick('t_ver', [v for v in (1, 2, 3, 0) if v != t.version_int])
+            if ch.coin('t_both', 0.5):
+                t.version_int = nv
+            t.version = nv.to_bytes(4, 'big')
             return True
         i = t.inputs[ch.index('t_i', len(t.inputs))]
         if kind == 'sequence':
             i.sequence = (i.sequence - 1) & 0xffffffff
             return True
         if kind == 'outpoint_index':
-            i.output_n_int += 1
-            i.output_n = i.output_n_int.to_bytes(4, 'big')
+            nn = i.output_n_int + 1
+            if ch.coin('t_both', 0.5):
+                i.output_n_int = nn
+            i.output_n = nn.to_bytes(4, 'big')
             return True
         if kind == 'outpoint_txid':
             b = bytearray(i.prev_txid)
@@ -812,33 +855,38 @@ class Ceremony:
             return None
         done = False
         if kind in ('sig_hashtype', 'sig_der_byte', 'pubkey_byte'):
-            order = list(range(len(rt.vin)))
-            start = ch.index('w_in', len(order))
-            for idx in order[start:] + order[:start]:
-                vin = rt.vin[idx]
-                wit = list(vin.witness)
-                for j, item in enumerate(wit):
-                    e = edit_item(item)
-                    if e is not None:
-                        wit[j] = e
-                        vin.witness = wit
-                        done = True
-                        break
-                if done:
-                    break
+            # every signature / public key of every input is a candidate (not only the first one of an input)
+            def is_target(b):
+                return is_sig(b) if kind != 'pubkey_byte' else is_pub(b)
+            cands = []
+            for idx, vin in enumerate(rt.vin):
+                for j, item in enumerate(vin.witness):
+                    if is_target(item):
+                        cands.append((idx, 'w', j))
                 try:
                     items = rscript.parse_script(vin.script_sig) if vin.script_sig else []
                 except Exception:
                     items = []
                 for j, item in enumerate(items):
-                    e = edit_item(item)
+                    if is_target(item):
+                        cands.append((idx, 's', j))
+            if cands:
+                idx, where, j = cands[ch.index('w_cand', len(cands))]
+                vin = rt.vin[idx]
+                if where == 'w':
+                    wit = list(vin.witness)
+                    e = edit_item(wit[j])
+                    if e is not None:
+                        wit[j] = e
+                        vin.witness = wit
+                        done = True
+                else:
+                    items = rscript.parse_script(vin.script_sig)
+                    e = edit_item(items[j])
                     if e is not None:
                         items[j] = e
                         vin.script_sig = rscript.ser_script(items)
                         done = True
-                        break
-                if done:
-                    break
         elif kind == 'out_value':
             o = rt.vout[ch.index('w_o', len(rt.vout))]
             o.value = 0 if (o.value and ch.coin('w_zero', 0.2)) else o.value + ch.pick('w_dv', [1, -1, 1000])
